@@ -313,59 +313,12 @@ theorem ops2_refine : ∃ gh' a', VolInv (run mgr1 ops2).1 gh' ∧ SameGeom vol1
     absRun a1 ops2 ((run mgr1 ops2).2.map (·.result)) a' :=
   fs_history_refines vol16 ops2 mgr1_inv a1_abs (SameGeom.refl vol16) ops2_covered
 
-/-- **The excluded point, evaluated** — why `find` needs `NameOK`.  The 8.3 form of the name "\xE5LD.TXT" starts with
-byte 0xE5; the root holds a DELETED slot with these eleven bytes.  The crate's `find_directory_entry` answers `Ok`
-with that deleted entry; no step of the abstract file system does (it answers `NotFound`: no file or directory slot
-has the name). -/
-def nameE5 : List Nat := [0xE5, 76, 68, 46, 84, 88, 84]
-
-theorem nameE5_not_ok : ¬ NameOK nameE5 := by
-  intro h
-  exact h [0xE5, 76, 68, 32, 32, 32, 32, 32, 84, 88, 84] (by decide +kernel) rfl
-
-theorem find_e5_answers_ok : (match (step mgr1 (.find 2 nameE5)).2.result with | .ok (.entry e) => e.name == nOld | _ => false) = true := by
-  decide +kernel
-
-theorem find_e5_abstract_lookup : (match Spec.AbsFs.dirCtx a1 2 nameE5 with
-    | .ok (od, sfn) => decide (Spec.AbsFs.lookup (a1.slots od.dir) sfn = none)
-    | .error _ => true) = true := by decide +kernel
-
-/-- A `find` whose abstract lookup finds nothing does not answer an entry. -/
-theorem find_not_entry {a a' : AbsFs} {d : Nat} {name : List Nat} {r : Res Payload} (hl : a.locked = false)
-    (h : absStep a (.find d name) (a', r))
-    (hev : (match Spec.AbsFs.dirCtx a d name with
-      | .ok (od, sfn) => decide (Spec.AbsFs.lookup (a.slots od.dir) sfn = none)
-      | .error _ => true) = true) : ∀ e, r ≠ .ok (.entry e) := by
-  intro e he
-  unfold absStep at h
-  rw [if_neg (by rw [hl]; exact Bool.false_ne_true)] at h
-  have h' : Spec.AbsFs.findS a d name a' r := h
-  obtain ⟨_, h2⟩ := h'
-  cases hctx : Spec.AbsFs.dirCtx a d name with
-  | error e' =>
-    rw [hctx] at h2
-    rw [h2] at he
-    cases he
-  | ok p =>
-    obtain ⟨od, sfn⟩ := p
-    rw [hctx] at h2 hev
-    dsimp only at h2 hev
-    rw [of_decide_eq_true hev] at h2
-    rw [h2] at he
-    cases he
-
-theorem entry_of_match {r : Res Payload} (h : (match r with | .ok (.entry e) => e.name == nOld | _ => false) = true) :
-    ∃ e, r = .ok (.entry e) := by
-  cases r with
-  | ok p => cases p <;> first | exact ⟨_, rfl⟩ | cases h
-  | err e => cases h
-  | panic m => cases h
-  | diverged => cases h
-
-theorem find_e5_is_not_a_step (a' : AbsFs) : ¬ absStep a1 (.find 2 nameE5) (a', (step mgr1 (.find 2 nameE5)).2.result) := by
-  intro h
-  obtain ⟨e, he⟩ := entry_of_match (r := (step mgr1 (.find 2 nameE5)).2.result) find_e5_answers_ok
-  exact find_not_entry rfl h find_e5_abstract_lookup e he
+/-- The former excluded point: names whose 8.3 form would start with byte 0xE5.  Since the crate stores such a name
+with 0x05 in the first byte (the FAT specification's substitution), `NameOK` holds for EVERY name
+(`Props.C03All.name_ok_all`), so the `NameOK` hypotheses above are no restriction any more; the name "\xE5LD.TXT" is
+looked up as `05 4C 44 …`, which no slot of the example root holds. -/
+theorem find_e5_not_found : (match (step mgr1 (.find 2 [0xE5, 76, 68, 46, 84, 88, 84])).2.result with
+    | .err .NotFound => true | _ => false) = true := by decide +kernel
 
 end Example
 
